@@ -22,10 +22,14 @@ OUT OF OR IN CONNECTION WITH THE SOFTWARE OR THE USE OR OTHER DEALINGS IN
 THE SOFTWARE.
 """
 
-import functools
-import shlex
+import re
 
 from pytools import UniqueNameGenerator
+
+
+# A token is a maximal run of non-blank characters in which quoted strings
+# (no matter where in the run the quote opens) count as non-blank.
+_WRAP_TOKEN_RE = re.compile(r"""(?:[^\s"']|"[^"]*"|'[^']*'|["'])+""")
 
 
 def wrap_line_base(line, level=0, width=80, indentation="    ",
@@ -42,7 +46,7 @@ def wrap_line_base(line, level=0, width=80, indentation="    ",
     `lex_func` argument returns the list of tokens in the line.
     """
     if lex_func is None:
-        lex_func = functools.partial(shlex.split, posix=False)
+        lex_func = _WRAP_TOKEN_RE.findall
 
     tokens = lex_func(line)
     resulting_lines = []
